@@ -7,12 +7,17 @@
   * `Codec τ` = a serialiser / parser pair over a text type `τ` (`enc` fails where the real
     serialiser raises). YAML (ruamel.yaml) and TOML (tomli_w / tomllib) are third-party: they enter the
     theorems only through the hypothesis `dec (enc d) = some d`. For JSON the pair is written out
-    (`Codec.Json.print` mirrors `json.dump(payload, f, indent=2, ensure_ascii=False)` as
+    (`Codec.Json.print o` mirrors `json.dump(payload, f, indent=config.json_indent, ensure_ascii=config.json_ascii)` as
     `filewritejson.run_step` and `JsonRepresenter.dump` call it; `Codec.Json.parse` mirrors
     `json.load`), so the hypothesis can be discharged (Props/C16.lean).
   * `writePayload`, `fileWrite`, `fetchArgs`, `fetch`, `fileFormatDoc` mirror the glue in
     `pypyr/steps/filewrite{json,yaml,toml}.py`, `fetch{json,yaml,toml}.py`,
     `pypyr/parser/{json,yaml,toml}file.py` and `ObjectRewriter.in_to_out`.
+  * File level with encodings: `fileWriteStored`, `fetchStored` (the steps' `encoding` entry, else
+    `config.default_encoding`, else the platform default), `fileParserArgs` (the file context parsers:
+    no-args behaviour per format, path = single-space join of the arguments, opened with
+    `config.default_encoding` — toml: bytes, UTF-8 —, top-level check per format); `serialiseError` =
+    the class of the exception when a serialiser refuses a payload, per format and cause.
 
   No imports beyond the shared models.
 -/
@@ -120,6 +125,27 @@ def writePayload (f : Format) (fuel : Nat) (ctx : Ctx) : Except Exc (String × V
         else .ok (path, payload)
   | .ok _ => .error (outOfDomain "step input is not a mapping")
 
+def attributeError (msg : String) : Exc := ⟨"AttributeError", msg⟩
+def representerError (msg : String) : Exc := ⟨"ruamel.yaml.representer.RepresenterError", msg⟩
+
+/-- The exception the serialiser of format `f` raises when it refuses `payload` (`c.enc payload = none`),
+    by format and cause — the class is what the step lets escape, unchanged:
+    * json — `json.dump`: `TypeError` ("Object of type X is not JSON serializable", "keys must be str, …");
+    * yaml — ruamel.yaml's round-trip dumper: `RepresenterError` ("cannot represent an object");
+    * toml — `tomli_w.dump` starts with `payload.items()`: a top level that is not a mapping (list, str,
+      int, float, bool — the step has already refused the falsy ones) is an `AttributeError`
+      ("'list' object has no attribute 'items'"); a node INSIDE a mapping that TOML has no type for (None,
+      an object) or a mapping key that is not a string is a `TypeError` ("Object of type 'NoneType' is not
+      TOML serializable", "Invalid mapping key '1' of type 'int'. A string is required."). -/
+def serialiseError (f : Format) (payload : Val) : Exc :=
+  match f with
+  | .json => typeError "Object is not JSON serializable"
+  | .yaml => representerError "cannot represent an object"
+  | .toml =>
+    match payload with
+    | .dict _ => typeError "Object is not TOML serializable"
+    | _ => attributeError "object has no attribute 'items'"
+
 /-- `filewrite*.run_step`: serialise the payload to the path. -/
 def fileWrite {τ} (f : Format) (c : Codec τ) (fuel : Nat) (ctx : Ctx) (files : Files τ) :
     Except Exc (Files τ) :=
@@ -127,7 +153,7 @@ def fileWrite {τ} (f : Format) (c : Codec τ) (fuel : Nat) (ctx : Ctx) (files :
   | .error e => .error e
   | .ok (path, payload) =>
     match c.enc payload with
-    | none => .error (typeError "payload is not serializable")
+    | none => .error (serialiseError f payload)
     | some t => .ok (files.set path t)
 
 /-- `fetch*.run_step` argument handling: a plain string is the path; else `path`, optional `key`. -/
@@ -268,6 +294,149 @@ def fileFormatFile {τ} (c : Codec τ) (fuel : Nat) (ctx : Ctx) (files : Files (
       | .error e => .error e
       | .ok t => .ok (files.set (targetOf inp out) ⟨o.outEnc dflt, t⟩)
 
+/-! ### Encodings: write step, fetch step and file context parser at file level
+
+  `filewrite{json,yaml}.run_step` open the target with `input.get('encoding', config.default_encoding)`;
+  `fetch{json,yaml}.run_step` open the source with the same expression over THEIR input
+  (`config.default_encoding` when the input is a plain path string). `filewritetoml` / `fetchtoml` /
+  the toml parser work on bytes (`pypyr.toml.write_file` / `read_file`; UTF-8 by the TOML spec) and take
+  no encoding option. The file context parsers `pypyr.parser.{jsonfile,yamlfile}.get_parsed_context`
+  take no option either: they open the file with `config.default_encoding`.
+
+  ASSUMPTIONS (stated, pinned by the harness): `open(encoding=None)` uses the platform default, which
+  is utf-8 (`platformEnc`); encoding names are compared as strings (aliases such as `utf8` / `UTF-8` are
+  not identified); every character of the text is encodable in the encoding written with (otherwise
+  `open(...).write` raises UnicodeEncodeError — not modelled). `dflt` is `config.default_encoding`
+  (env `PYPYR_ENCODING`; `none` = not set). -/
+
+/-- `open(…, encoding=e)`: `None` is the platform default (assumed utf-8). -/
+def platformEnc (e : Option String) : String := e.getD "utf-8"
+
+/-- `input.get('encoding', config.default_encoding)` on the formatted step input: absent → the config
+    default; present → its value — a present `None` is `None` (platform default), NOT the config default. -/
+def encodingOpt (input : List (Val × Val)) (dflt : Option String) : Except Exc (Option String) :=
+  match dictGet? input (.str "encoding") with
+  | none => .ok dflt
+  | some .none => .ok none
+  | some (.str e) => .ok (some e)
+  | some _ => .error (outOfDomain "encoding is not a string")
+
+/-- The encoding `filewrite*.run_step` writes the file in. -/
+def writeEncoding (f : Format) (fuel : Nat) (ctx : Ctx) (dflt : Option String) : Except Exc String :=
+  match f with
+  | .toml => .ok "utf-8"
+  | _ =>
+    match formattedInput fuel ctx f.writeKey with
+    | .error e => .error e
+    | .ok (.dict input) =>
+      match encodingOpt input dflt with
+      | .error e => .error e
+      | .ok e => .ok (platformEnc e)
+    | .ok _ => .error (outOfDomain "step input is not a mapping")
+
+/-- `filewrite*.run_step` at file level: the file holds the serialised payload in `writeEncoding`. -/
+def fileWriteStored {τ} (f : Format) (c : Codec τ) (fuel : Nat) (ctx : Ctx) (dflt : Option String)
+    (files : Files (Stored τ)) : Except Exc (Files (Stored τ)) :=
+  match writePayload f fuel ctx with
+  | .error e => .error e
+  | .ok (path, payload) =>
+    match writeEncoding f fuel ctx dflt with
+    | .error e => .error e
+    | .ok we =>
+      match c.enc payload with
+      | none => .error (serialiseError f payload)
+      | some t => .ok (files.set path ⟨we, t⟩)
+
+/-- The encoding `fetch*.run_step` reads the file with: a plain-string input has no options. -/
+def fetchEncoding (f : Format) (fuel : Nat) (ctx : Ctx) (dflt : Option String) : Except Exc String :=
+  match f with
+  | .toml => .ok "utf-8"
+  | _ =>
+    match formattedInput fuel ctx f.fetchKey with
+    | .error e => .error e
+    | .ok (.str _) => .ok (platformEnc dflt)
+    | .ok (.dict input) =>
+      match encodingOpt input dflt with
+      | .error e => .error e
+      | .ok e => .ok (platformEnc e)
+    | .ok _ => .error (outOfDomain "step input is neither a string nor a mapping")
+
+/-- `fetch*.run_step` at file level (the code as it is now: `len(payload)` guarded). -/
+def fetchStored {τ} (f : Format) (c : Codec τ) (fuel : Nat) (ctx : Ctx) (dflt : Option String)
+    (files : Files (Stored τ)) : Except Exc Ctx :=
+  match fetchArgs f fuel ctx with
+  | .error e => .error e
+  | .ok (path, key) =>
+    match fetchEncoding f fuel ctx dflt with
+    | .error e => .error e
+    | .ok fe =>
+      match files.get? path with
+      | none => .error ⟨"FileNotFoundError", path⟩
+      | some s =>
+        match s.readAs fe with
+        | none => .error ⟨"UnicodeDecodeError", path⟩
+        | some t =>
+          match c.dec t with
+          | none => .error ⟨"DecodeError", path⟩
+          | some payload => store ctx key payload
+
+/-- The encoding a file context parser opens its file with: `config.default_encoding` (json, yaml);
+    toml reads bytes, UTF-8 by spec. The parsers take NO encoding option. -/
+def parserEnc (f : Format) (dflt : Option String) : String :=
+  match f with
+  | .toml => "utf-8"
+  | _ => platformEnc dflt
+
+/-- `' '.join(args)`. -/
+def joinArgs : List String → String
+  | [] => ""
+  | [a] => a
+  | a :: b :: rest => a ++ " " ++ joinArgs (b :: rest)
+
+/-- `if not args:` — json and yaml raise `AssertionError`, toml logs and returns `None`. -/
+def noArgsResult (f : Format) : Except Exc (Option Val) :=
+  match f with
+  | .json => .error ⟨"AssertionError", "pipeline must be invoked with context arg set. (json)"⟩
+  | .yaml => .error ⟨"AssertionError", "pipeline must be invoked with context arg set. (yaml)"⟩
+  | .toml => .ok none
+
+/-- What `get_parsed_context` does with the text of the file, per format: json / yaml check that the
+    top level is a `Mapping` (`TypeError` otherwise); toml makes no check (tomllib returns a dict) but
+    takes `len(payload)` for its closing log statement. -/
+def fileParserF {τ} (f : Format) (c : Codec τ) (t : τ) : Except Exc Val :=
+  match c.dec t with
+  | none => .error ⟨"DecodeError", ""⟩
+  | some d =>
+    match f with
+    | .toml => if hasLen d then .ok d else .error (typeError "object has no len()")
+    | _ =>
+      match d with
+      | .dict kvs => .ok (.dict kvs)
+      | _ => .error (typeError "input should describe a mapping at the top level")
+
+/-- `get_parsed_context` from the path on: open with the parser's encoding, decode, parse, check. -/
+def fileParserPath {τ} (f : Format) (c : Codec τ) (dflt : Option String) (path : String)
+    (files : Files (Stored τ)) : Except Exc Val :=
+  match files.get? path with
+  | none => .error ⟨"FileNotFoundError", path⟩
+  | some s =>
+    match s.readAs (parserEnc f dflt) with
+    | none => .error ⟨"UnicodeDecodeError", path⟩
+    | some t => fileParserF f c t
+
+/-- `pypyr.parser.{jsonfile,yamlfile,tomlfile}.get_parsed_context(args)`: `args` is `None` or the list
+    of context arguments of the command line; the path is their single-space join. `.ok none` = the
+    parser returned `None` (no initial context). -/
+def fileParserArgs {τ} (f : Format) (c : Codec τ) (dflt : Option String) (args : Option (List String))
+    (files : Files (Stored τ)) : Except Exc (Option Val) :=
+  match args with
+  | none => noArgsResult f
+  | some [] => noArgsResult f
+  | some (a :: rest) =>
+    match fileParserPath f c dflt (joinArgs (a :: rest)) files with
+    | .error e => .error e
+    | .ok v => .ok (some v)
+
 /-! ### Sessions: several file operations in one process
 
   A `Codec` is a pair of FUNCTIONS: what `dec` returns depends on the text alone — not on which
@@ -322,6 +491,15 @@ def Codec.ideal : Codec Val := { enc := some, dec := some }
 
 namespace Json
 
+/-- The two settings `filewritejson.run_step` and `JsonRepresenter.dump` read from `pypyr.config`:
+    `json.dump(payload, f, indent=config.json_indent, ensure_ascii=config.json_ascii)`.
+    `ind = some n`: `indent=n` (an int; a negative int prints like 0); `ind = none`: `indent=None`,
+    the one-line form with `', '` between items. (`indent` given as a string is not modelled.) -/
+structure Opts where
+  ind : Option Nat := some 2
+  ascii : Bool := false
+  deriving Repr, DecidableEq
+
 def hexDigit : Nat → Char
   | 0 => '0' | 1 => '1' | 2 => '2' | 3 => '3' | 4 => '4' | 5 => '5' | 6 => '6' | 7 => '7'
   | 8 => '8' | 9 => '9' | 10 => 'a' | 11 => 'b' | 12 => 'c' | 13 => 'd' | 14 => 'e' | _ => 'f'
@@ -336,8 +514,17 @@ def hexVal (c : Char) : Option Nat :=
   else if c = 'e' || c = 'E' then some 14 else if c = 'f' || c = 'F' then some 15
   else none
 
-/-- `json.encoder.ESCAPE_DCT` with `ensure_ascii=False`: only `"`, `\`, and U+0000–U+001F. -/
-def escChar (c : Char) : List Char :=
+/-- `'\\u{0:04x}'.format(n)` (n < 0x10000). -/
+def u4 (n : Nat) : List Char :=
+  ['\\', 'u', hexDigit (n / 4096), hexDigit (n / 256 % 16), hexDigit (n / 16 % 16), hexDigit (n % 16)]
+
+/-- One character of a string literal. `json.encoder.ESCAPE_DCT`: `"`, `\`, and `\n \r \t \b \f`
+    have short escapes, the other characters below U+0020 are `\u00XX`
+    (`py_encode_basestring`, `ensure_ascii=False`). With `ensure_ascii=True`
+    (`py_encode_basestring_ascii`, `ESCAPE_ASCII = ([\\"]|[^\ -~])`) every character outside
+    U+0020..U+007E as well (so U+007F too): `\uXXXX` below U+10000, else the UTF-16 surrogate pair
+    `\ud8xx\udcxx` of `n - 0x10000`. -/
+def escChar (ascii : Bool) (c : Char) : List Char :=
   if c = '"' then ['\\', '"']
   else if c = '\\' then ['\\', '\\']
   else if c = '\n' then ['\\', 'n']
@@ -345,14 +532,16 @@ def escChar (c : Char) : List Char :=
   else if c = '\t' then ['\\', 't']
   else if c = '\x08' then ['\\', 'b']
   else if c = '\x0c' then ['\\', 'f']
-  else if c.toNat < 32 then ['\\', 'u', '0', '0', hexDigit (c.toNat / 16), hexDigit (c.toNat % 16)]
+  else if c.toNat < 32 || (ascii && 126 < c.toNat) then
+    if c.toNat < 0x10000 then u4 c.toNat
+    else u4 (0xD800 + (c.toNat - 0x10000) / 1024) ++ u4 (0xDC00 + (c.toNat - 0x10000) % 1024)
   else [c]
 
-def escStr : List Char → List Char
+def escStr (ascii : Bool) : List Char → List Char
   | [] => []
-  | c :: cs => escChar c ++ escStr cs
+  | c :: cs => escChar ascii c ++ escStr ascii cs
 
-def prStr (s : String) : List Char := '"' :: (escStr s.toList ++ ['"'])
+def prStr (ascii : Bool) (s : String) : List Char := '"' :: (escStr ascii s.toList ++ ['"'])
 
 def digit (k : Nat) : Char := hexDigit (k % 10)
 
@@ -367,43 +556,108 @@ def natDigits (n : Nat) : List Char := digitsAux n n []
 def prInt (i : Int) : List Char :=
   if i < 0 then '-' :: natDigits i.natAbs else natDigits i.natAbs
 
-/-- `'\n' + ' ' * (2 * level)`. -/
-def indentOf (lvl : Nat) : List Char := '\n' :: List.replicate (2 * lvl) ' '
+def padZeros (ds : List Char) (k : Nat) : List Char := List.replicate (k - ds.length) '0' ++ ds
 
-def prKey : Val → List Char
-  | .str s => prStr s
-  | _ => ['"', '"']      -- outside the domain (`isJson` is false)
+def stripZeros (ds : List Char) : List Char := (ds.reverse.dropWhile (· == '0')).reverse
+
+/-- `float.__repr__` of `n / 2^k`: the shared `fltRepr` (PypyrModel/PyRepr.lean) over `List Char`
+    (`Props/Lemmas/C16_JsonFloat.lean`: `prFlt_eq_fltRepr : prFlt n k = (fltRepr n k).toList`, all `n k`).
+    The exact decimal expansion: integer part, `.`, the `k` digits of `(|n| mod 2^k)·5^k` without
+    trailing zeros (`0` if none are left). That IS Python's (shortest round-tripping) repr where the
+    expansion has at most 15 significant digits and no exponent form is due — see `fltOk`. -/
+def prFlt (n : Int) (k : Nat) : List Char :=
+  let a := n.natAbs
+  let ds := stripZeros (padZeros (natDigits (a % 2 ^ k * 5 ^ k)) k)
+  (if n < 0 then ['-'] else []) ++ (natDigits (a / 2 ^ k) ++ '.' :: (if ds.isEmpty then ['0'] else ds))
+
+/-- The floats on which `prFlt` is `float.__repr__` and which the parser below reads back exactly:
+    canonical (`k = 0`, or `n` odd — what `float.as_integer_ratio` gives), at most 15 digits in all
+    (then the value is a double and its exact expansion is its shortest repr), and
+    `|x| ≥ 1e-4` or `x = 0` (below that `repr` switches to the exponent form; above, `|x| < 1e16`
+    follows from the 15 digits). `-0.0` has no `Val`. -/
+def fltOk (n : Int) (k : Nat) : Bool :=
+  (k == 0 || n.natAbs % 2 == 1) &&
+  decide ((natDigits (n.natAbs / 2 ^ k)).length + max k 1 ≤ 15) &&
+  (n == 0 || decide (2 ^ k ≤ n.natAbs * 10000))
+
+/-- `'\n' + ' ' * (indent * level)` after an opening and before a closing bracket; nothing with
+    `indent=None`. -/
+def nl (o : Opts) (lvl : Nat) : List Char :=
+  match o.ind with
+  | none => []
+  | some n => '\n' :: List.replicate (n * lvl) ' '
+
+/-- What follows the comma between two items: the newline-indent, or a blank with `indent=None`
+    (`item_separator` is `','` when an indent is given, `', '` otherwise). -/
+def sep (o : Opts) (lvl : Nat) : List Char :=
+  match o.ind with
+  | none => [' ']
+  | some n => '\n' :: List.replicate (n * lvl) ' '
+
+/-- The key of a member as `_iterencode_dict` writes it: a `str` as it is; `float` by `float.__repr__`;
+    `True`/`False`/`None` as `true`/`false`/`null`; `int` by `int.__repr__`; any other key type:
+    `TypeError: keys must be str, int, float, bool or None` (`none`). -/
+def keyStr : Val → Option String
+  | .str s => some s
+  | .flt n k => some (fltRepr n k)
+  | .bool true => some "true"
+  | .bool false => some "false"
+  | .none => some "null"
+  | .int i => some (intStr i)
+  | _ => Option.none
+
+def prKey (o : Opts) (k : Val) : List Char :=
+  match keyStr k with
+  | some s => prStr o.ascii s
+  | Option.none => ['"', '"']      -- outside the domain (`isJsonK` is false)
 
 mutual
-/-- `json.dump(v, f, indent=2, ensure_ascii=False)` at nesting level `lvl` (`_iterencode`). -/
-def pr (lvl : Nat) : Val → List Char
+/-- `json.dump(v, f, indent=o.ind, ensure_ascii=o.ascii)` at nesting level `lvl` (`_iterencode`). -/
+def pr (o : Opts) (lvl : Nat) : Val → List Char
   | .none => ['n', 'u', 'l', 'l']
   | .bool true => ['t', 'r', 'u', 'e']
   | .bool false => ['f', 'a', 'l', 's', 'e']
   | .int i => prInt i
-  | .flt n k => (fltRepr n k).toList
-  | .str s => prStr s
-  | .list xs => prArr lvl xs
-  | .dict kvs => prObj lvl kvs
-  | _ => ['n', 'u', 'l', 'l']   -- outside the domain (`isJson` is false)
-def prArr (lvl : Nat) : List Val → List Char
+  | .flt n k => prFlt n k
+  | .str s => prStr o.ascii s
+  | .list xs => prArr o lvl xs
+  | .dict kvs => prObj o lvl kvs
+  | _ => ['n', 'u', 'l', 'l']   -- outside the domain (`isJsonK` is false)
+def prArr (o : Opts) (lvl : Nat) : List Val → List Char
   | [] => ['[', ']']
-  | x :: xs => '[' :: (indentOf (lvl + 1) ++ (pr (lvl + 1) x ++ prElems lvl xs))
+  | x :: xs => '[' :: (nl o (lvl + 1) ++ (pr o (lvl + 1) x ++ prElems o lvl xs))
 /-- the remaining elements and the closing bracket of an array at level `lvl` -/
-def prElems (lvl : Nat) : List Val → List Char
-  | [] => indentOf lvl ++ [']']
-  | x :: xs => ',' :: (indentOf (lvl + 1) ++ (pr (lvl + 1) x ++ prElems lvl xs))
-def prObj (lvl : Nat) : List (Val × Val) → List Char
+def prElems (o : Opts) (lvl : Nat) : List Val → List Char
+  | [] => nl o lvl ++ [']']
+  | x :: xs => ',' :: (sep o (lvl + 1) ++ (pr o (lvl + 1) x ++ prElems o lvl xs))
+def prObj (o : Opts) (lvl : Nat) : List (Val × Val) → List Char
   | [] => ['{', '}']
   | (k, v) :: rest =>
-    '{' :: (indentOf (lvl + 1) ++ (prKey k ++ (':' :: ' ' :: (pr (lvl + 1) v ++ prMembers lvl rest))))
-def prMembers (lvl : Nat) : List (Val × Val) → List Char
-  | [] => indentOf lvl ++ ['}']
+    '{' :: (nl o (lvl + 1) ++ (prKey o k ++ (':' :: ' ' :: (pr o (lvl + 1) v ++ prMembers o lvl rest))))
+def prMembers (o : Opts) (lvl : Nat) : List (Val × Val) → List Char
+  | [] => nl o lvl ++ ['}']
   | (k, v) :: rest =>
-    ',' :: (indentOf (lvl + 1) ++ (prKey k ++ (':' :: ' ' :: (pr (lvl + 1) v ++ prMembers lvl rest))))
+    ',' :: (sep o (lvl + 1) ++ (prKey o k ++ (':' :: ' ' :: (pr o (lvl + 1) v ++ prMembers o lvl rest))))
 end
 
-def print (d : Val) : List Char := pr 0 d
+def print (o : Opts) (d : Val) : List Char := pr o 0 d
+
+mutual
+/-- What a `json.dump` → `json.load` cycle makes of a document: every key becomes the string
+    `json.dump` wrote for it (`keyStr`), and where two keys of one mapping are written as the same
+    string (`{1: 'a', '1': 'b'}`: BOTH members are written) `json.load` keeps the first position and
+    the last value — `rebuildDict`, Python's `dict(pairs)`. -/
+def coerceKeys : Val → Val
+  | .list xs => .list (coerceList xs)
+  | .dict kvs => .dict (rebuildDict (coercePairs kvs))
+  | v => v
+def coerceList : List Val → List Val
+  | [] => []
+  | x :: xs => coerceKeys x :: coerceList xs
+def coercePairs : List (Val × Val) → List (Val × Val)
+  | [] => []
+  | (k, v) :: rest => (.str ((keyStr k).getD ""), coerceKeys v) :: coercePairs rest
+end
 
 def keyIn (k : Val) : List (Val × Val) → Bool
   | [] => false
@@ -413,29 +667,51 @@ def isStr : Val → Bool
   | .str _ => true
   | _ => false
 
+/-- A key `json.dump` accepts; `strict`: and a float key is one `prFlt` prints as Python does. -/
+def isKey (strict : Bool) : Val → Bool
+  | .str _ | .int _ | .bool _ | .none => true
+  | .flt n k => !strict || fltOk n k
+  | _ => false
+
 mutual
-/-- The JSON domain: objects with pairwise distinct string keys, arrays, strings, ints, bools,
-    null — and floats when `flt` (floats are printed but outside the proved round trip). -/
-def isJson (flt : Bool) : Val → Bool
+/-- The documents `json.dump` accepts: objects whose keys are str/int/float/bool/None, arrays,
+    strings, ints, floats, bools, null. `strict = true`: and every float is in `fltOk` (the domain
+    of the proved round trip, and of the byte-for-byte correspondence of the printer). -/
+def isJsonK (strict : Bool) : Val → Bool
   | .none => true
   | .bool _ => true
   | .int _ => true
-  | .flt _ _ => flt
+  | .flt n k => !strict || fltOk n k
   | .str _ => true
-  | .list xs => isJsonList flt xs
-  | .dict kvs => isJsonPairs flt kvs
+  | .list xs => isJsonKList strict xs
+  | .dict kvs => isJsonKPairs strict kvs
   | _ => false
-def isJsonList (flt : Bool) : List Val → Bool
+def isJsonKList (strict : Bool) : List Val → Bool
   | [] => true
-  | x :: xs => isJson flt x && isJsonList flt xs
-def isJsonPairs (flt : Bool) : List (Val × Val) → Bool
+  | x :: xs => isJsonK strict x && isJsonKList strict xs
+def isJsonKPairs (strict : Bool) : List (Val × Val) → Bool
   | [] => true
-  | (k, v) :: rest => isStr k && !keyIn k rest && isJson flt v && isJsonPairs flt rest
+  | (k, v) :: rest => isKey strict k && isJsonK strict v && isJsonKPairs strict rest
+end
+
+mutual
+/-- Every mapping in the document has string keys, pairwise distinct (what JSON itself can say:
+    on these `coerceKeys` is the identity). -/
+def strKeys : Val → Bool
+  | .list xs => strKeysList xs
+  | .dict kvs => strKeysPairs kvs
+  | _ => true
+def strKeysList : List Val → Bool
+  | [] => true
+  | x :: xs => strKeys x && strKeysList xs
+def strKeysPairs : List (Val × Val) → Bool
+  | [] => true
+  | (k, v) :: rest => isStr k && !keyIn k rest && strKeys v && strKeysPairs rest
 end
 
 /-- Parser results: a value and the unread input; a document `json.load` rejects
-    (`JSONDecodeError`); or a document outside the modelled domain (floats, NaN/Infinity, lone
-    surrogates, fuel). -/
+    (`JSONDecodeError`); or a document outside the modelled domain (floats other than the exact short
+    decimals of `mkFloat`, exponents, NaN/Infinity, lone surrogates, fuel). -/
 inductive PR (α : Type) where
   | ok (v : α) (rest : List Char)
   | bad
@@ -504,9 +780,13 @@ def readNat (a : Nat) : List Char → Nat × List Char
   | [] => (a, [])
   | c :: cs => if c.isDigit then readNat (a * 10 + (c.toNat - 48)) cs else (a, c :: cs)
 
-/-- After the integer part: a fraction or an exponent makes it a float (outside the domain). -/
-def isFloatTail : List Char → Bool
-  | '.' :: c :: _ => c.isDigit
+/-- Consume the digits of a fraction: how many (`m`), their value (`F`), the unread input. -/
+def readFrac (m F : Nat) : List Char → Nat × Nat × List Char
+  | [] => (m, F, [])
+  | c :: cs => if c.isDigit then readFrac (m + 1) (F * 10 + (c.toNat - 48)) cs else (m, F, c :: cs)
+
+/-- `NUMBER_RE` exponent part `([eE][-+]?[0-9]+)` at the head of the input. -/
+def isExpTail : List Char → Bool
   | 'e' :: c :: rest | 'E' :: c :: rest =>
     c.isDigit || ((c = '+' || c = '-') && match rest with
       | d :: _ => d.isDigit
@@ -523,11 +803,36 @@ def pNat : List Char → PR Nat
       .ok r.1 r.2
     else .bad
 
+def sgn (neg : Bool) (a : Nat) : Int := if neg then -(Int.ofNat a) else Int.ofNat a
+
+/-- `float(text)` for `x.ddd` (integer part `x`, `m` fraction digits of value `F`), where it can be
+    given exactly and simply: at most 15 digits in all (so the decimal is a double when it is dyadic);
+    `F = 0` → `x / 2^0` (not `-0.0`, which has no `Val`); `5^m ∣ F` with an odd quotient `fr` →
+    `(x·2^m + fr) / 2^m` (because `F / 10^m = fr / 2^m`) — this is every canonical float `prFlt` prints.
+    Anything else (`0.1`, `0.50`, 16 digits …): `none`, outside the modelled domain. -/
+def mkFloat (neg : Bool) (x m F : Nat) : Option Val :=
+  if 15 < (natDigits x).length + m then Option.none
+  else if F = 0 then (if neg && x = 0 then Option.none else some (.flt (sgn neg x) 0))
+  else if F % 5 ^ m = 0 && (F / 5 ^ m) % 2 = 1 then some (.flt (sgn neg (x * 2 ^ m + F / 5 ^ m)) m)
+  else Option.none
+
+/-- `NUMBER_RE` after the sign: integer part, optional fraction `(\.[0-9]+)`, optional exponent
+    (any exponent form is outside the modelled domain). -/
 def pNumber (neg : Bool) (cs : List Char) : PR Val :=
   match pNat cs with
   | .ok n rest =>
-    if isFloatTail rest then .outside
-    else .ok (.int (if neg then -(Int.ofNat n) else Int.ofNat n)) rest
+    match rest with
+    | '.' :: c :: r =>
+      if c.isDigit then
+        let fr := readFrac 0 0 (c :: r)
+        if isExpTail fr.2.2 then .outside
+        else match mkFloat neg n fr.1 fr.2.1 with
+          | some v => .ok v fr.2.2
+          | Option.none => .outside
+      else .ok (.int (sgn neg n)) rest
+    | _ =>
+      if isExpTail rest then .outside
+      else .ok (.int (sgn neg n)) rest
   | .bad => .bad
   | .outside => .outside
 
@@ -642,9 +947,10 @@ def parse (cs : List Char) : PR Val :=
   | .bad => .bad
   | .outside => .outside
 
-/-- The JSON codec as a `Codec` (text = list of characters). -/
-def codec : Codec (List Char) :=
-  { enc := fun d => if isJson true d then some (print d) else none
+/-- The JSON codec as a `Codec` (text = list of characters), under the settings `o`. `enc` fails
+    where `json.dump` raises (`TypeError`: a node or a key of another type). -/
+def codec (o : Opts := {}) : Codec (List Char) :=
+  { enc := fun d => if isJsonK false d then some (print o d) else none
     dec := fun t => match parse t with
       | .ok v _ => some v
       | _ => none }
